@@ -4,13 +4,19 @@ package service
 
 import (
 	"fmt"
+	"hash/fnv"
+	"reflect"
 	"sort"
 	"strings"
 	"time"
+	"unsafe"
 )
 
 // Accessors for the verification harness (added to the build by overlay under
-// tag verif; nothing in the repository refers to them).
+// tag verif; nothing in the repository refers to them). They depend on three
+// names only - packageParse, newPackageParse and parse - and read the parser's
+// private state by reflection, so that renaming or regrouping its fields does
+// not break the harness build.
 
 // VerifParser drives the connection's frame extractor / sub-package
 // reassembler with exact read-sized chunks.
@@ -21,36 +27,115 @@ func VerifNewParser() *VerifParser { return &VerifParser{p: newPackageParse()} }
 // Parse feeds one read and returns the messages the reader would handle.
 func (v *VerifParser) Parse(data []byte) ([]*Message, error) { return v.p.parse(data) }
 
-// Pending returns the number of buffered bytes and of open transfers.
+// Pending returns the number of buffered bytes (all byte-slice fields of the
+// parser) and of open transfers (entries of its largest map).
 func (v *VerifParser) Pending() (history int, transfers int) {
-	return len(v.p.historyData), len(v.p.subcontractingRecord)
-}
-
-// State renders the reassembler state canonically: per open transfer its slot
-// occupancy and its age / idle time relative to now; plus the buffered bytes.
-func (v *VerifParser) State(now time.Time) string {
-	var ids []int
-	for id := range v.p.subcontractingRecord {
-		ids = append(ids, int(id))
-	}
-	sort.Ints(ids)
-	var b strings.Builder
-	fmt.Fprintf(&b, "h=%x;", v.p.historyData)
-	for _, id := range ids {
-		fmt.Fprintf(&b, "%04x:", id)
-		for _, s := range v.p.subcontractingRecord[uint16(id)] {
-			if len(s) == 0 {
-				b.WriteByte('.')
-			} else {
-				b.WriteByte('#')
+	s := reflect.ValueOf(v.p).Elem()
+	for i := 0; i < s.NumField(); i++ {
+		f := s.Field(i)
+		switch {
+		case f.Kind() == reflect.Slice && f.Type().Elem().Kind() == reflect.Uint8:
+			history += f.Len()
+		case f.Kind() == reflect.Map:
+			if f.Len() > transfers {
+				transfers = f.Len()
 			}
 		}
-		if t, ok := v.p.timeoutRecord[uint16(id)]; ok {
-			fmt.Fprintf(&b, "@%d/%d", now.Sub(t.createTime)/time.Millisecond, now.Sub(t.updateTime)/time.Millisecond)
-		}
-		b.WriteByte(';')
 	}
+	return history, transfers
+}
+
+// State renders the parser's whole private state canonically: maps sorted by
+// key, byte slices as length + hash (top-level buffers in full), instants as
+// age relative to now in milliseconds.
+func (v *VerifParser) State(now time.Time) string {
+	var b strings.Builder
+	verifDump(&b, reflect.ValueOf(v.p).Elem(), now, 0)
 	return b.String()
+}
+
+var verifTimeType = reflect.TypeOf(time.Time{})
+
+func verifDump(b *strings.Builder, v reflect.Value, now time.Time, depth int) {
+	if depth > 6 {
+		b.WriteString("...")
+		return
+	}
+	if v.CanAddr() && !v.CanInterface() { // unexported field: re-open it for reading
+		v = reflect.NewAt(v.Type(), unsafe.Pointer(v.UnsafeAddr())).Elem()
+	}
+	if v.Type() == verifTimeType {
+		t := v.Interface().(time.Time)
+		if t.IsZero() {
+			b.WriteString("t0")
+		} else {
+			fmt.Fprintf(b, "@%d", now.Sub(t)/time.Millisecond)
+		}
+		return
+	}
+	switch v.Kind() {
+	case reflect.Ptr, reflect.Interface:
+		if v.IsNil() {
+			b.WriteString("nil")
+			return
+		}
+		verifDump(b, v.Elem(), now, depth+1)
+	case reflect.Struct:
+		b.WriteByte('{')
+		for i := 0; i < v.NumField(); i++ {
+			verifDump(b, v.Field(i), now, depth+1)
+			b.WriteByte(';')
+		}
+		b.WriteByte('}')
+	case reflect.Map:
+		keys := v.MapKeys()
+		sort.Slice(keys, func(i, j int) bool { return fmt.Sprint(keys[i]) < fmt.Sprint(keys[j]) })
+		b.WriteByte('[')
+		for _, k := range keys {
+			fmt.Fprintf(b, "%v:", k)
+			e := v.MapIndex(k)
+			if e.Kind() != reflect.Ptr && e.Kind() != reflect.Interface && e.Kind() != reflect.Slice && e.Kind() != reflect.Map {
+				c := reflect.New(e.Type()).Elem() // map elements are not addressable: copy
+				c.Set(e)
+				e = c
+			}
+			verifDump(b, e, now, depth+1)
+			b.WriteByte(',')
+		}
+		b.WriteByte(']')
+	case reflect.Slice, reflect.Array:
+		if v.Type().Elem().Kind() == reflect.Uint8 {
+			n := v.Len()
+			if n == 0 {
+				b.WriteByte('.')
+				return
+			}
+			h := fnv.New64a()
+			if v.Kind() == reflect.Slice {
+				h.Write(v.Bytes())
+			} else {
+				for i := 0; i < n; i++ {
+					h.Write([]byte{byte(v.Index(i).Uint())})
+				}
+			}
+			fmt.Fprintf(b, "#%d/%x", n, h.Sum64()&0xffffffff)
+			return
+		}
+		b.WriteByte('(')
+		for i := 0; i < v.Len(); i++ {
+			verifDump(b, v.Index(i), now, depth+1)
+			b.WriteByte(' ')
+		}
+		b.WriteByte(')')
+	case reflect.Func, reflect.Chan, reflect.UnsafePointer:
+		b.WriteString("-")
+	default:
+		if v.CanInterface() {
+			fmt.Fprintf(b, "%v", v.Interface())
+		} else {
+			fmt.Fprintf(b, "%v", v)
+		}
+	}
 }
 
 // VerifComplete reports whether msg is a complete message (not a lone sub-package).
